@@ -101,6 +101,7 @@ type runner struct {
 	badPush    bool             // pushes carry parameters that cannot be marshalled (step "badpush")
 	endedPush  bool             // pushes are issued with a context that has already ended (step "endedpush")
 	baseCtx    context.Context
+	nbase      atomic.Int64
 	baseCancel context.CancelFunc
 	waitDone   chan struct{}
 	stats      map[string]int
@@ -123,11 +124,17 @@ func (r *runner) gate(tag string) chan hcmd {
 	return g
 }
 
+type baseKey struct{}
+
 // handler is the single gated handler behind every known method.
 func (r *runner) handler(ctx context.Context, req *jrpc2.Request) (any, error) {
 	tag := vh.TagOf(json.RawMessage(req.ParamString()))
 	inb := jrpc2.InboundRequest(ctx)
-	r.rec.Log("HStart", "tag", tag, "cx", ctx.Err() != nil, "inb", inb == req)
+	base := "" // the serial number of the base context this request's context was made from (where NewContext is in use)
+	if n, ok := ctx.Value(baseKey{}).(int64); ok {
+		base = strconv.FormatInt(n, 10)
+	}
+	r.rec.Log("HStart", "tag", tag, "cx", ctx.Err() != nil, "inb", inb == req, "base", base)
 	r.rmu.Lock()
 	r.running[tag] = true
 	g := r.gate(tag)
@@ -758,7 +765,8 @@ func Run(t *testing.T, sc *Scenario, emit func(evs []vh.Event, stats map[string]
 		if sc.Opts.BaseCtx {
 			r.baseCtx, r.baseCancel = context.WithCancel(context.Background())
 			defer r.baseCancel()
-			sopts.NewContext = func() context.Context { return r.baseCtx }
+			// every call hands out a context of its own (numbered), all of them ending with the one the scenario can end
+			sopts.NewContext = func() context.Context { return context.WithValue(r.baseCtx, baseKey{}, r.nbase.Add(1)) }
 		}
 		r.srv = jrpc2.NewServer(assigner{r}, sopts)
 		*sopts = jrpc2.ServerOptions{AllowPush: !sc.Opts.Push, DisableBuiltin: !sc.Opts.NoBuiltin, Concurrency: 1 + conc%3} // (options are read when the server is made)
